@@ -255,7 +255,8 @@ def runPlumb (s : DState) (fl : Flags) (name : String) (args : List SExp) : Opti
   | _ =>
     let ps ← parseParams args "ps"
     let rs ← parseTyIds args "rs"
-    if vs.length != ps.length || ps.length < 2 then none else
+    -- apply also exists for one parameter: `deriveApply(f, v)()`
+    if vs.length != ps.length || ps.length < (if name == "apply" then 1 else 2) then none else
     let f := results s fTag rs
     match name, vs with
     | "curry", a :: rest =>
